@@ -12,7 +12,8 @@ PROP = {'title': 'Axis-aligned boxes behave as half-open point sets',
                '[-5,5] in 2-D ([-3,3] quick) and [-2,2] in 3-D; unsigned types on the shifted range [0,2r]; oracle = bit masks of explicit point sets in the harness; ASan/UBSan '
                'aborts are attributed to the announced case',
  'binaries': [{'name': 'C13',
-               'sources': ['harness/C13.cpp', 'harness/C13_int.cpp', 'harness/C13_unsigned.cpp', 'harness/C13_wide.cpp'],
+               'sources': ['harness/C13.cpp', 'harness/C13_int.cpp', 'harness/C13_unsigned.cpp', 'harness/C13_wide.cpp',
+                           'harness/C13_float.cpp', 'harness/C13_double.cpp', 'harness/C13_heap.cpp'],
                'libs': [],
                'flavour': 'asan'}],
  'deadline': {'quick': 240, 'thorough': 1500},
